@@ -30,7 +30,7 @@ def spec_c13(tier, seed):
                 prefixes = [p + [x] for p in prefixes for x in range(a)]
             out += [{'w': w, 'ops': ops, 'parity': parity, 'prefix': p} for p in prefixes]
         return out
-    hist_parts = (hp(2, 5, 1) + hp(3, 4, 1)) if q else (hp(2, 7, 2) + hp(3, 5, 2) + hp(4, 4, 2))
+    hist_parts = (hp(2, 5, 1) + hp(3, 4, 1)) if q else (hp(2, 6, 2) + hp(3, 5, 2) + hp(4, 4, 2))
     return dict(
         conds=[
             Cond('c13_streamids', 'c_alloc_step', timeout=120),
@@ -45,7 +45,7 @@ def spec_c13(tier, seed):
                     'histories of allocate/register/finish on a W-bit id space vs the reference allocator incl. the '
                     'failure condition; (c) real endpoints: first ids 1/2 and REJECTED on reuse of a live id with '
                     'symbolic 31-bit ids and 4 request types',
-        bounds=['(a) |live ids| <= 3, ids and cursor full 31-bit', '(b) quick: W=2 with <=5 operations, W=3 with <=4; thorough: W=2/7 ops, W=3/5 ops, W=4/4 ops; both parities; partitioned by the first 1 (quick) / 2 (thorough) operations',
+        bounds=['(a) |live ids| <= 3, ids and cursor full 31-bit', '(b) quick: W=2 with <=5 operations, W=3 with <=4; thorough: W=2/6 ops, W=3/5 ops, W=4/4 ops; both parities; partitioned by the first 1 (quick) / 2 (thorough) operations',
                 '(c) one peer-opened and one own live stream, ids from {1,3,2^31-1,2,2^31-2}; availability check itself at full width on a symbolic table of <=3 ids'],
         outside=['exhaustion at full width (needs 2^30 live streams)', 'more than 3 live ids in the inductive step'],
         functions=['rsocket.stream_control.StreamControl.allocate_stream', 'rsocket.stream_control.StreamControl._increment_stream_id',
@@ -689,8 +689,8 @@ def spec_c17(tier, seed):
             if q and (p[0] != p[1] or (cause == 2 and p[2] == 1)):
                 continue
             parts.append({'cause': cause, 'rounds': 2, 'pend': p, 'idle_max': 1100000 if q else 2500000})
-        if not q:
-            parts += [{'cause': cause, 'rounds': 3, 'pend': p} for p in pends if p[2] == 0]
+        if not q and cause in (0, 3):
+            parts += [{'cause': cause, 'rounds': 3, 'pend': p, 'idle_max': 1100000} for p in pends if p[2] == 0 and p[0] == p[1]]
     return dict(
         conds=[Cond('c17_reconnect', 'c_reconnect', parts=parts, timeout=900)],
         explanation='a real RSocketClient (keep-alive 1 s, lifetime 3 s) with a provider of simulated transports; the connection ends by '
@@ -784,10 +784,12 @@ def spec_c01(tier, seed):
                               'l2': (pi + 1) % 4, 'pace': pace})
         else:
             for l1 in range(4):
-                for mode in range(6):
+                for j in range(3):
+                    mode = (pi + l1 + 2 * j + seed) % 6
                     parts.append({'kinds': kinds, 'l1': l1, 'mode': mode, 'l2': (l1 + mode + 1) % 4})
-                    if kinds[0] != kinds[1]:
-                        parts.append({'kinds': kinds[::-1], 'l1': l1, 'mode': mode, 'l2': (l1 + mode + 2) % 4})
+                if kinds[0] != kinds[1]:
+                    mode = (pi + l1 + 3) % 6
+                    parts.append({'kinds': kinds[::-1], 'l1': l1, 'mode': mode, 'l2': (l1 + mode + 2) % 4})
     return dict(
         conds=[Cond('c01_e2e', 'c_end_to_end', parts=parts, timeout=900)],
         explanation='a real RSocketClient and a real RSocketServer on one virtual loop joined by a simulated link: TCP framing '
@@ -801,7 +803,7 @@ def spec_c01(tier, seed):
                     'at the matching handler/subscriber exactly once, byte for byte, in order, nowhere else; each caller gets '
                     'its own response; nothing left open.',
         bounds=['all %d unordered pairs of interaction models (thorough: both orders); who initiates each (symbolic), fragmentation (symbolic), pacing (symbolic)' % len(pairs),
-                'length class of the first payload and link mode: %s; <= 2 elements per stream direction' % ('2 combinations per pair (rotating with the seed), one per pacing' if q else 'all 24 combinations per pair'),
+                'length class of the first payload and link mode: %s; <= 2 elements per stream direction' % ('2 combinations per pair (rotating with the seed), one per pacing' if q else 'for every pair and every length class 3 of the 6 link modes (rotating), one more in the reversed order'),
                 '%d partitions; on these paths every value is concrete once the selectors are branched on: the engine is an exhaustive enumerator of the bounded configuration space, the symbolic-data content of C01 sits in the lemmas it composes (C02, C03, C04, C05)' % len(parts)],
         outside=['more than two concurrent interactions, joint chunking of both directions, longer streams, other fragment sizes'],
         functions=['rsocket.rsocket_base.RSocketBase._sender', 'rsocket.rsocket_base.RSocketBase._receiver_listen', 'rsocket.rsocket_base.RSocketBase._handle_next_frame',
